@@ -46,6 +46,12 @@ DEFS = [
     ("concrete in two attributes", '#[ts(concrete(A = i32))] #[ts(concrete(B = String))] pub struct @<C, A, B> { pub a: A, pub b: Vec<B>, pub c: Option<C> }', ["C"], {"concrete": {"A": "i32", "B": "String"}}),
     ("concrete first", '#[ts(concrete(D = Inner))] pub struct @<D, T> { pub meta: D, pub body: Vec<T> }', ["T"], {"concrete": {"D": "Inner"}, "order": ["D", "T"]}),
     ("concrete in the middle", '#[ts(concrete(B = i32))] pub struct @<A, B, C> { pub a: A, pub b: B, pub c: Option<C> }', ["A", "C"], {"concrete": {"B": "i32"}, "order": ["A", "B", "C"]}),
+    # the order of the free parameters in name() when another one is concrete
+    ("concrete with four free parameters", '#[ts(concrete(X = i32))] pub struct @<A, B, C, D, X> { pub a: A, pub b: Vec<B>, pub c: Option<C>, pub d: (D, X) }', ["A", "B", "C", "D"], {"concrete": {"X": "i32"}}),
+    ("concrete between free parameters", '#[ts(concrete(X = i32))] pub struct @<A, X, B, C> { pub a: A, pub b: Vec<B>, pub c: Option<C>, pub x: X }', ["A", "B", "C"], {"concrete": {"X": "i32"}, "order": ["A", "X", "B", "C"]}),
+    # a parameter behind a transparent wrapper, under optional_fields (the argument may be an Option)
+    ("optional_fields, wrapped parameter", '#[ts(optional_fields)] pub struct @<T> { pub id: i32, pub value: Box<T>, pub list: Vec<T> }', ["T"], {}),
+    ("const only", "pub struct @<const N: usize> { pub data: [u8; N], pub n: i32 }", [], {"consts_var": [["1"], ["3"], ["2"], ["0"]], "per_value": True}),
     ("enum", "pub enum @<T> { A(T), B { x: Vec<T> }, C }", ["T"], {}),
     ("enum tagged", '#[ts(tag = "t", content = "c")] pub enum @<T> { A(T), B { x: Option<T> }, C(T, T) }', ["T"], {}),
     ("newtype", "pub struct @<T>(pub T);", ["T"], {}),
@@ -73,7 +79,8 @@ def build():
         nty = len(params) + len(opts.get("concrete", {}))
         insts = []
         for an in range(4):
-            args = [ARGS[(an * 2 + k) % len(ARGS)] for k in range(len(params))] + list(opts.get("concrete", {}).values())
+            # (instantiation an, parameter k: every definition sees a plain type, an Option, a user type and a long array)
+            args = [ARGS[([0, 5, 2, 6][an] + 3 * k) % len(ARGS)] for k in range(len(params))] + list(opts.get("concrete", {}).values())
             tyargs = args
             if "order" in opts:      # declaration order of the type parameters when the concrete ones are not the last
                 it = iter(args[:len(params)])
